@@ -1,7 +1,78 @@
-(* Observation commands: filled in by the corresponding property work; definitions only. *)
+(* Observation commands of the platform-tag domain (C16), prefix `p.`.  Definitions only. *)
 From Coq Require Import List NArith Bool String.
 Import ListNotations.
-Require Import Show.
+Require Import Elf ElfFile VParse VDec Show Tags TagsLit TagsModel PlatLit PlatModel RunTags.
 Open Scope N_scope.
 
-Definition run_plat (cmd : list N) (args : list (list N)) : option (list N) := None.
+Definition hd_is_c (c : N) (s : list N) : bool := match s with x :: _ => x =? c | [] => false end.
+(* ELFFile(io.BytesIO(bytes)): "E" | capacity|encoding|machine|flags|<interpreter: N, E, S+bytes> *)
+Definition show_ires (r : ires) : list N := match r with INone => [78] | IInvalid => [69] | ISome b => 83 :: b end.
+Definition obs_elf (f : list N) : list N :=
+  match parse_header f with
+  | Invalid => asc "E"
+  | Ok e => fields [show_N (capacity e); show_N (encoding e); show_N (machine e); show_N (flags e); show_ires (interpreter f e)]
+  end.
+
+Definition parse_confstr (s : list N) : confstr_r :=
+  match s with c :: t => if c =? 83 then CStr t else if c =? 78 then CNone else CRaise | [] => CRaise end.
+Definition parse_ctypes (s : list N) : ctypes_r :=
+  match s with
+  | c :: t => if (c =? 83) || (c =? 66) then TStr t else if c =? 79 then TOSError else if c =? 65 then TNoSymbol else TNoModule
+  | [] => TNoModule
+  end.
+Definition parse_exe_arg (s : list N) : option (list N) := match s with c :: t => if c =? 70 then Some t else None | [] => None end.
+(* truth value of a result code: T O -> true, others false *)
+Definition code_truth (c : N) : bool := (c =? 84) || (c =? 79).
+Definition code_fres (c : N) : fres := if c =? 78 then FNone else FBool (code_truth c).
+Definition code_attr (c : N) : option bool := if c =? 45 then None else Some (code_truth c).
+(* a rule "M.m.arch=c" (arch "*" = any) *)
+Definition rule_match (r : list N) (M m : nat) (arch : list N) : option fres :=
+  match split_on 61 r with
+  | [lhs; c :: _] =>
+      match split_on 46 lhs with
+      | [a; b; ar] => if Nat.eqb (parse_nat a) M && Nat.eqb (parse_nat b) m && (seqb ar [42] || seqb ar arch) then Some (code_fres c) else None
+      | _ => None
+      end
+  | _ => None
+  end.
+Fixpoint first_rule (rs : list (list N)) (M m : nat) (arch : list N) : option fres :=
+  match rs with [] => None | r :: t => match rule_match r M m arch with Some x => Some x | None => first_rule t M m arch end end.
+(* "-" | "M" a1 a2010 a2014 [":" default (";" rule)*] *)
+Definition parse_policy (s : list N) : option pmodule :=
+  match s with
+  | c :: a1 :: a2 :: a3 :: rest =>
+      if negb (c =? 77) then None else
+      let fn := match rest with
+                | _ :: d :: rules => Some (fun M m arch => match first_rule (tl (split_on 59 rules)) M m arch with Some x => x | None => code_fres d end)
+                | _ => None
+                end in
+      Some {| p_func := fn; p_1 := code_attr a1; p_2010 := code_attr a2; p_2014 := code_attr a3 |}
+  | _ => None
+  end.
+Definition mk_menv (confstr ctypes exe policy : list N) : menv :=
+  {| m_confstr := parse_confstr confstr; m_ctypes := parse_ctypes ctypes; m_exe := parse_exe_arg exe; m_policy := parse_policy policy |}.
+Definition commas (l : list (list N)) : list N := join [44] l.
+Definition obs_many (archs confstr ctypes exe policy : list N) : list N :=
+  commas (manylinux_tags (mk_menv confstr ctypes exe policy) (parse_list archs)).
+Definition obs_musl (archs exe stderr : list N) : list N :=
+  fields [commas (musllinux_tags (parse_exe_arg exe) stderr (parse_list archs));
+          match musl_loader (parse_exe_arg exe) with Some ld => 83 :: ld | None => [45] end].
+Definition pair_nat (a b : list N) : nat * nat := (parse_nat a, parse_nat b).
+Definition show_olist (o : option (list (list N))) : list N := match o with Some l => commas l | None => asc "!EXC:ValueError" end.
+
+Definition run_plat (cmd : list N) (args : list (list N)) : option (list N) :=
+  let a := fun n => nth_str n args in
+  if seqb cmd (asc "p.elf") then Some (obs_elf (a 0%nat))
+  else if seqb cmd (asc "p.many") then Some (obs_many (a 0%nat) (a 1%nat) (a 2%nat) (a 3%nat) (a 4%nat))
+  else if seqb cmd (asc "p.musl") then Some (obs_musl (a 0%nat) (a 1%nat) (a 2%nat))
+  else if seqb cmd (asc "p.mac") then Some (commas (mac_platforms (pair_nat (a 0%nat) (a 1%nat)) (a 2%nat)))
+  else if seqb cmd (asc "p.macdef") then Some (show_olist (mac_default (a 0%nat) (a 1%nat) (a 2%nat)))
+  else if seqb cmd (asc "p.ios") then Some (commas (ios_platforms (pair_nat (a 0%nat) (a 1%nat)) (a 2%nat)))
+  else if seqb cmd (asc "p.linux") then
+    Some (commas (linux_platforms (parse_bool (a 0%nat)) (a 1%nat) (mk_menv (a 2%nat) (a 3%nat) (a 4%nat) (a 5%nat)) (a 6%nat)))
+  else if seqb cmd (asc "p.plat") then
+    Some (show_olist (platform_tags {| pe_system := a 0%nat; pe_get_platform := a 1%nat;
+                                       pe_menv := mk_menv (a 2%nat) (a 3%nat) (a 4%nat) (a 5%nat); pe_musl_stderr := a 6%nat;
+                                       pe_mac_ver := a 7%nat; pe_mac_cpu := a 8%nat; pe_mac_sub := a 9%nat;
+                                       pe_ios_release := a 10%nat; pe_multiarch := a 11%nat |}))
+  else None.
